@@ -5,6 +5,7 @@ package props
 import (
 	"bufio"
 	"bytes"
+	"encoding/binary"
 	"fmt"
 	"io"
 	"os"
@@ -494,6 +495,50 @@ func C09(run *hx.Run) {
 						run.See("outcome_"+ex.kind, "refused")
 					} else {
 						run.See("outcome_"+ex.kind, "mixed")
+					}
+				}
+				// the same leftover with the journal re-laid for a smaller sector size (a writer on a VFS that reports
+				// 256- or 64-byte sectors writes its journal like that, and SQLite - any SQLite - takes the sector size from
+				// the journal header when it recovers). Only single-header journals (synchronous=off) are re-laid.
+				if jc == "magic-present" && strings.Contains(sc.scenario, "+nosync") && (t.k%8 == 0 || run.Thorough()) {
+					if jb, err := os.ReadFile(orig + "-journal"); err == nil && len(jb) > 512+8 && binary.BigEndian.Uint32(jb[20:24]) == 512 {
+						for _, ss := range []int{256, 64} {
+							vdb := filepath.Join(wdir, fmt.Sprintf("sector%d.sqlite", ss))
+							os.Remove(vdb)
+							os.Remove(vdb + "-journal")
+							copyFile(orig, vdb)
+							nj := make([]byte, ss, len(jb))
+							copy(nj, jb[:28])
+							binary.BigEndian.PutUint32(nj[20:24], uint32(ss))
+							nj = append(nj, jb[512:]...)
+							os.WriteFile(vdb+"-journal", nj, 0o644)
+							vrec := filepath.Join(wdir, "sector-rec.sqlite")
+							os.Remove(vrec)
+							os.Remove(vrec + "-journal")
+							if _, integ, err := o.Recover(vdb, vrec); err != nil || len(integ) != 1 || integ[0] != "ok" {
+								run.Count("small_sector_variant_not_recoverable_by_sqlite", 1)
+								continue
+							}
+							vwant, err := sqliteVersioned(o, vrec)
+							if err != nil {
+								continue
+							}
+							run.Eval(1)
+							run.See("journal_sector_size", fmt.Sprint(ss))
+							if d, err := sqlittle.Open(vdb); err == nil {
+								v3 := readVersioned(d)
+								d.Close()
+								for _, op := range verOps {
+									if v3.errs[op] != nil {
+										continue
+									}
+									if df := diffRows(vwant[op], v3.ops[op]); df != "" {
+										run.Violation(fmt.Sprintf("C09/unfinished-transaction-read/journal-sector-%d/%s", ss, opKind(op)), fmt.Sprintf("%s, writer killed before op %d: the hot journal re-laid for %d-byte sectors (which SQLite recovers from): %s succeeded but differs from SQLite's post-recovery state: %s", sc.name(), t.k, ss, op, df), detail)
+										break
+									}
+								}
+							}
+						}
 					}
 				}
 				if long != nil {
